@@ -1,13 +1,485 @@
 package engine
 
 import (
+	"fmt"
+	"os"
+	"sort"
+	"strconv"
+	"strings"
+	"syscall"
+
+	"github.com/crillab/gophersat/gsmain"
+	"github.com/crillab/gophersat/verifrt"
+
+	"gsim/ref"
 	"gsim/tasks"
 	"gsim/world"
 )
 
+type simHandle struct {
+	r *tasks.SimReader
+}
+
+func (h *simHandle) Read(p []byte) (int, error) { return h.r.Read(p) }
+func (h *simHandle) Close() error               { return nil }
+
+// CLIResult is what one in-process run of the command line tool produced.
+type CLIResult struct {
+	Stdout string
+	Stderr string
+	Exit   int
+}
+
+// runCLI runs gsmain.Main in the calling task under the simulated file system.
+func (e *Engine) runCLI(spec *world.TaskSpec, out *tasks.Outcome) (res CLIResult) {
+	files := map[string]*world.SimFile{}
+	for i := range spec.Files {
+		files[spec.Files[i].Path] = &spec.Files[i]
+	}
+	verifrt.ArgsFn = func() []string { return spec.Argv }
+	verifrt.OpenFn = func(path string) (verifrt.File, error) {
+		f, ok := files[path]
+		if !ok {
+			e.res.Faults["fs-open-enoent"]++
+			return nil, &os.PathError{Op: "open", Path: path, Err: syscall.ENOENT}
+		}
+		switch f.OpenErr {
+		case "ENOENT":
+			e.res.Faults["fs-open-enoent"]++
+			return nil, &os.PathError{Op: "open", Path: path, Err: syscall.ENOENT}
+		case "EACCES":
+			e.res.Faults["fs-open-eacces"]++
+			return nil, &os.PathError{Op: "open", Path: path, Err: syscall.EACCES}
+		}
+		r := tasks.NewSimReader(f.Data, f.Chunks, false)
+		r.FailAt = f.ReadErr
+		if f.ReadErr == -1 {
+			e.res.Faults["fs-read-error-first-read"]++
+		} else if f.ReadErr > 0 {
+			e.res.Faults["fs-read-error-mid-file"]++
+		}
+		if len(f.Chunks) > 0 {
+			e.res.Faults["reader-chunked-delivery"]++
+		}
+		return &simHandle{r}, nil
+	}
+	defer func() {
+		verifrt.ArgsFn, verifrt.OpenFn = nil, nil
+		if r := recover(); r != nil {
+			if x, ok := r.(exitSentinel); ok {
+				res.Exit = x.code
+				res.Stdout, res.Stderr = e.stdout.String(), e.stderr.String()
+				return
+			}
+			if _, abort := r.(abortSentinel); !abort && (spec.Route == "unreadable" || spec.Route == "unknown") {
+				// a Go panic ends the real process with exit status 2 and a trace on stderr: for an
+				// unreadable file that still is "non-zero exit status and no answer line"
+				res.Exit = 2
+				res.Stdout, res.Stderr = e.stdout.String(), e.stderr.String()+fmt.Sprintf("panic: %v", r)
+				e.res.Probes["cli-panic-on-bad-file"]++
+				return
+			}
+			panic(r)
+		}
+	}()
+	gsmain.Main()
+	res.Stdout, res.Stderr = e.stdout.String(), e.stderr.String()
+	return res
+}
+
 func (e *Engine) execCLI(spec *world.TaskSpec) tasks.Outcome {
 	var out tasks.Outcome
 	out.Kind = "cli"
-	out.Viol = append(out.Viol, tasks.Violation{Prop: "TOOL", Clause: "not-implemented", Detail: "cli"})
+	fail := func(clause, format string, args ...any) {
+		out.Viol = append(out.Viol, tasks.Violation{Prop: "C19", Clause: clause, Detail: fmt.Sprintf(format, args...)})
+	}
+	cpMode := hasFlag(spec.Argv, "-cp")
+	if cpMode && e.running != nil {
+		e.running.phase = "cp"
+	}
+	e.res.Probes["cli-kind-"+spec.Entry]++
+	for _, a := range spec.Argv[1:] {
+		if strings.HasPrefix(a, "-") {
+			e.res.Probes["cli-flag"+a]++
+		}
+	}
+	if spec.Route != "ok" {
+		e.res.Probes["cli-file-"+spec.Route]++
+	}
+	res := e.runCLI(spec, &out)
+	out.Summary = fmt.Sprintf("cli:exit%d", res.Exit)
+	out.Info = res.Stdout
+	ctx := fmt.Sprintf("argv=%v file=%s\nstdout:\n%s\nstderr:\n%s", spec.Argv, fileDesc(spec), clip(res.Stdout, 1500), clip(res.Stderr, 400))
+	judgeCLI(spec, res, fail, ctx, &out)
+	if cpMode {
+		for i := range out.Viol {
+			out.Viol[i].Clause += "@cp"
+		}
+	}
 	return out
+}
+
+func clip(s string, n int) string {
+	if len(s) > n {
+		return s[:n] + "..."
+	}
+	return s
+}
+
+func fileDesc(spec *world.TaskSpec) string {
+	if len(spec.Files) == 0 {
+		return "<none>"
+	}
+	f := spec.Files[0]
+	return fmt.Sprintf("%s open_err=%q read_err=%d data=%q", f.Path, f.OpenErr, f.ReadErr, clip(f.Data, 700))
+}
+
+func hasFlag(argv []string, f string) bool {
+	for _, a := range argv {
+		if a == f {
+			return true
+		}
+	}
+	return false
+}
+
+type cliOut struct {
+	status   []string // s lines (text after "s ")
+	vlines   []string
+	olines   []int
+	other    []string // neither c/s/v/o
+	comments int
+}
+
+func classify(stdout string) cliOut {
+	var c cliOut
+	for _, ln := range strings.Split(strings.TrimRight(stdout, "\n"), "\n") {
+		switch {
+		case ln == "":
+		case strings.HasPrefix(ln, "c ") || ln == "c":
+			c.comments++
+		case strings.HasPrefix(ln, "s "):
+			c.status = append(c.status, strings.TrimSpace(ln[2:]))
+		case strings.HasPrefix(ln, "v ") || ln == "v":
+			c.vlines = append(c.vlines, strings.TrimSpace(strings.TrimPrefix(ln, "v")))
+		case strings.HasPrefix(ln, "o "):
+			n, err := strconv.Atoi(strings.TrimSpace(ln[2:]))
+			if err != nil {
+				c.other = append(c.other, ln)
+			} else {
+				c.olines = append(c.olines, n)
+			}
+		default:
+			c.other = append(c.other, ln)
+		}
+	}
+	return c
+}
+
+// judgeCLI: the oracle of C19.
+func judgeCLI(spec *world.TaskSpec, res CLIResult, fail func(string, string, ...any), ctx string, out *tasks.Outcome) {
+	kind := spec.Entry
+	c := classify(res.Stdout)
+	bad := spec.Route == "unreadable" || spec.Route == "unknown"
+	if bad {
+		// Unreadable or unknown files: non-zero exit status and no answer line
+		if res.Exit == 0 {
+			fail("bad-file-exit-0", "an unreadable or unknown file gave exit status 0; %s", ctx)
+		}
+		answer := len(c.status) > 0 || len(c.vlines) > 0 || len(c.olines) > 0
+		for _, ln := range c.other {
+			if ln == "SATISFIABLE" || ln == "UNSATISFIABLE" {
+				answer = true
+			}
+		}
+		if answer {
+			fail("bad-file-answer-line", "an unreadable or unknown file produced an answer line; %s", ctx)
+		}
+		return
+	}
+	mus := hasFlag(spec.Argv, "-mus")
+	count := hasFlag(spec.Argv, "-count")
+	cert := hasFlag(spec.Argv, "-certified")
+	if res.Exit != 0 {
+		if mus && kind == "cnf" && ref.CNFSat(spec.N, spec.Clauses) {
+			return // no MUS exists for a satisfiable file: an error exit is the truthful answer
+		}
+		fail("exit-nonzero", "well-formed file, exit status %d; %s", res.Exit, ctx)
+		return
+	}
+	switch {
+	case kind == "bf":
+		judgeCLIBF(spec, c, fail, ctx)
+	case mus:
+		judgeCLIMUS(spec, res.Stdout, fail, ctx)
+	case count && (kind == "cnf" || kind == "opb"):
+		var want int
+		if kind == "cnf" {
+			want = ref.CNF(spec.N, spec.Clauses).Count()
+		} else {
+			p := &ref.Problem{N: spec.N, Cons: spec.Cons}
+			want = p.Count()
+		}
+		if len(c.other) == 0 {
+			fail("count-missing", "no count printed; %s", ctx)
+			return
+		}
+		got, err := strconv.Atoi(strings.TrimSpace(c.other[len(c.other)-1]))
+		if err != nil || got != want {
+			fail("count-wrong", "printed count %q, the file has %d models over %d variables; %s", c.other[len(c.other)-1], want, spec.N, ctx)
+		}
+	case kind == "cnf":
+		truth := ref.CNFSat(spec.N, spec.Clauses)
+		if len(c.status) != 1 {
+			fail("status-lines", "%d status lines; %s", len(c.status), ctx)
+			return
+		}
+		switch c.status[0] {
+		case "SATISFIABLE":
+			if !truth {
+				fail("claims-sat", "printed s SATISFIABLE for an unsatisfiable file; %s", ctx)
+				return
+			}
+			if len(c.vlines) != 1 {
+				fail("v-line-missing", "s SATISFIABLE with %d v lines; %s", len(c.vlines), ctx)
+				return
+			}
+			m, ok := parseVInts(c.vlines[0], spec.N)
+			if !ok {
+				fail("v-line-syntax", "cannot read v line %q over %d variables; %s", c.vlines[0], spec.N, ctx)
+				return
+			}
+			if i := ref.CNFSatBy(spec.Clauses, m); i >= 0 {
+				fail("v-line-not-a-model", "the v line falsifies clause %v of the file; %s", spec.Clauses[i], ctx)
+			}
+		case "UNSATISFIABLE":
+			if truth {
+				fail("claims-unsat", "printed s UNSATISFIABLE for a satisfiable file; %s", ctx)
+				return
+			}
+			if cert {
+				r := ref.NewRUP(spec.N, spec.Clauses)
+				for i, ln := range c.other {
+					cl, ok := ref.ParseCertLine(ln)
+					if !ok {
+						fail("cert-syntax", "certificate line %d %q is not a clause; %s", i, ln, ctx)
+						return
+					}
+					if !r.Check(cl) {
+						fail("cert-not-rup", "certificate line %d %q is not RUP; %s", i, ln, ctx)
+						return
+					}
+				}
+				if !r.Refuted() {
+					fail("cert-no-refutation", "the printed certificate does not refute the file; %s", ctx)
+				}
+			}
+		default:
+			fail("no-answer", "status %q for a well-formed file; %s", c.status[0], ctx)
+		}
+	case kind == "opb" || kind == "wcnf":
+		var hard *ref.Problem
+		var costOf func(a uint32) int
+		nv := spec.N
+		if kind == "opb" {
+			hard = &ref.Problem{N: spec.N, Cons: spec.Cons}
+			costOf = func(a uint32) int {
+				if spec.Cost == nil {
+					return 0
+				}
+				return spec.Cost.Value(a)
+			}
+		} else {
+			hard = &ref.Problem{N: spec.N}
+			for _, s := range spec.Soft {
+				if s.Weight == 0 {
+					hard.Cons = append(hard.Cons, s.Con)
+				}
+			}
+			costOf = func(a uint32) int {
+				t := 0
+				for _, s := range spec.Soft {
+					if s.Weight > 0 && !s.Con.Holds(a) {
+						t += s.Weight
+					}
+				}
+				return t
+			}
+		}
+		min, sat := 0, false
+		for a := uint32(0); a < 1<<uint(hard.N); a++ {
+			if hard.Holds(a) {
+				if v := costOf(a); !sat || v < min {
+					min = v
+				}
+				sat = true
+			}
+		}
+		if len(c.status) != 1 {
+			fail("status-lines", "%d status lines; %s", len(c.status), ctx)
+			return
+		}
+		for i := 1; i < len(c.olines); i++ {
+			if c.olines[i] >= c.olines[i-1] {
+				fail("o-not-decreasing", "o lines %v are not strictly decreasing; %s", c.olines, ctx)
+				return
+			}
+		}
+		switch c.status[0] {
+		case "UNSATISFIABLE":
+			if sat {
+				fail("claims-unsat", "printed s UNSATISFIABLE, the file is satisfiable (optimum %d); %s", min, ctx)
+			}
+		case "OPTIMUM FOUND", "SATISFIABLE":
+			if !sat {
+				fail("claims-sat", "printed s %s for an unsatisfiable file; %s", c.status[0], ctx)
+				return
+			}
+			if len(c.olines) == 0 || c.olines[len(c.olines)-1] != min {
+				fail("o-last-not-optimum", "o lines %v, the true optimum is %d; %s", c.olines, min, ctx)
+			}
+			if len(c.vlines) != 1 {
+				fail("v-line-missing", "%d v lines; %s", len(c.vlines), ctx)
+				return
+			}
+			m, ok := parseVX(c.vlines[0], nv)
+			if !ok {
+				fail("v-line-syntax", "cannot read v line %q over %d variables; %s", c.vlines[0], nv, ctx)
+				return
+			}
+			a := ref.Bools(m)
+			if j := hard.FirstViolated(a); j >= 0 {
+				fail("v-line-not-a-model", "the v line violates %s; %s", hard.Cons[j], ctx)
+				return
+			}
+			if costOf(a) != min {
+				fail("v-line-not-optimal", "the v line costs %d, the optimum is %d; %s", costOf(a), min, ctx)
+			}
+		default:
+			fail("no-answer", "status %q for a well-formed file; %s", c.status[0], ctx)
+		}
+	}
+}
+
+// parseVInts reads "1 -2 3 0" into a model over n variables (each variable exactly once).
+func parseVInts(s string, n int) ([]bool, bool) {
+	f := strings.Fields(s)
+	if len(f) == 0 || f[len(f)-1] != "0" {
+		return nil, false
+	}
+	f = f[:len(f)-1]
+	if len(f) != n {
+		return nil, false
+	}
+	m := make([]bool, n)
+	seen := make([]bool, n)
+	for _, t := range f {
+		v, err := strconv.Atoi(t)
+		if err != nil || v == 0 {
+			return nil, false
+		}
+		i := v
+		if i < 0 {
+			i = -i
+		}
+		if i > n || seen[i-1] {
+			return nil, false
+		}
+		seen[i-1] = true
+		m[i-1] = v > 0
+	}
+	return m, true
+}
+
+// parseVX reads "x1 -x2 x3" into a model over n variables.
+func parseVX(s string, n int) ([]bool, bool) {
+	f := strings.Fields(s)
+	if len(f) != n {
+		return nil, false
+	}
+	m := make([]bool, n)
+	seen := make([]bool, n)
+	for _, t := range f {
+		neg := strings.HasPrefix(t, "-")
+		t = strings.TrimPrefix(t, "-")
+		if !strings.HasPrefix(t, "x") {
+			return nil, false
+		}
+		i, err := strconv.Atoi(t[1:])
+		if err != nil || i < 1 || i > n || seen[i-1] {
+			return nil, false
+		}
+		seen[i-1] = true
+		m[i-1] = !neg
+	}
+	return m, true
+}
+
+func judgeCLIBF(spec *world.TaskSpec, c cliOut, fail func(string, string, ...any), ctx string) {
+	f := spec.Formula
+	truth := f.Satisfiable()
+	verdict := ""
+	model := map[string]bool{}
+	for _, ln := range c.other {
+		switch {
+		case ln == "SATISFIABLE" || ln == "UNSATISFIABLE":
+			if verdict != "" {
+				fail("status-lines", "several verdict lines; %s", ctx)
+				return
+			}
+			verdict = ln
+		case strings.Contains(ln, ": "):
+			kv := strings.SplitN(ln, ": ", 2)
+			b, err := strconv.ParseBool(kv[1])
+			if err != nil {
+				fail("binding-syntax", "cannot read binding %q; %s", ln, ctx)
+				return
+			}
+			model[kv[0]] = b
+		}
+	}
+	switch verdict {
+	case "SATISFIABLE":
+		if !truth {
+			fail("claims-sat", "printed SATISFIABLE for an unsatisfiable formula; %s", ctx)
+			return
+		}
+		if !f.Eval(model) {
+			var ks []string
+			for k, v := range model {
+				ks = append(ks, fmt.Sprintf("%s=%v", k, v))
+			}
+			sort.Strings(ks)
+			fail("bindings-not-a-model", "the printed bindings %v do not satisfy the formula; %s", ks, ctx)
+		}
+	case "UNSATISFIABLE":
+		if truth {
+			fail("claims-unsat", "printed UNSATISFIABLE for a satisfiable formula; %s", ctx)
+		}
+	default:
+		fail("no-answer", "no verdict line; %s", ctx)
+	}
+}
+
+func judgeCLIMUS(spec *world.TaskSpec, stdout string, fail func(string, string, ...any), ctx string) {
+	i := strings.Index(stdout, "p cnf")
+	if i < 0 {
+		fail("mus-missing", "no DIMACS problem printed; %s", ctx)
+		return
+	}
+	n, cl, err := ref.ReadDIMACS(stdout[i:])
+	if err != nil {
+		fail("mus-syntax", "the printed MUS is not well-formed DIMACS: %v; %s", err, ctx)
+		return
+	}
+	if n != spec.N {
+		fail("mus-nbvars", "the printed MUS declares %d variables, the file %d; %s", n, spec.N, ctx)
+	}
+	if ref.CNFSat(spec.N, spec.Clauses) {
+		fail("mus-on-sat-file", "a MUS was printed for a satisfiable file; %s", ctx)
+		return
+	}
+	if msg := ref.JudgeMUS(spec.N, spec.Clauses, cl); msg != "" {
+		fail("mus-"+strings.SplitN(strings.ReplaceAll(msg, " ", "-"), ":", 2)[0], "%s; printed %v; %s", msg, cl, ctx)
+	}
 }
